@@ -56,7 +56,10 @@ def rule_mapped(prog):
     for bi, si, st in f.all_rvalues():
         p = st["p"]
         ix = [e["ix"] for e in proj(p) if isinstance(e, dict) and "ix" in e]
-        if len(ix) >= 2:
+        # layers_cfg[level][0][key] = action, or row[key] = action through `row = &mut layers_cfg[level][0]`
+        rv = st["rv"]
+        vty = (f.local_ty(rv["a"]["l"]) or "") if rv["k"] == "use" and is_place(rv.get("a")) and not proj(rv["a"]) else ""
+        if len(ix) >= 2 or (len(ix) == 1 and vty.startswith("kanata_keyberon::action::Action<")):
             if _from_key_name(f, {"l": ix[-1]}):
                 stores.append((bi, st))
     res.inst("anchors", mapped_keys_inserts=len(inserts), keyed_stores=len(stores))
